@@ -178,6 +178,16 @@ def nextLoop (C : Consts α) (basic : XP α → XP α) (conj : α → α) :
       else better o1 qx
     nextLoop C basic conj rest (nextPruners C qx zerop ++ pr) o2
 
+/-- the candidates a start contributes to `NextInt` (specification of one pass through the loop body, NaN aside): nothing if
+    `Basic` lands in the origin class with `c = 0`; the two conjugate points if it reports coincident lines at the origin;
+    otherwise the (centred) point itself -/
+def candsOf (C : Consts α) (basic : XP α → XP α) (conj : α → α) (s : XP α) : List (XP α) :=
+  let qx := fixc (mk0 zero zero) (basic s)
+  let zerop := ceq C.delta (mk0 zero zero) qx
+  if qx.c == 0 && zerop then []
+  else if qx.c != 0 && zerop then [conjCand C conj qx.c (-1), conjCand C conj qx.c 1]
+  else [qx]
+
 /-- `big` stands for `Math::infinity()` in the initial best point `(inf, 0)` -/
 def nextInt (C : Consts α) (basic : XP α → XP α) (conj : α → α) (big : α) : NOut α :=
   nextLoop C basic conj (nextStarts C) [] { q := mk0 big zero, visited := [], nchange := 0, nan := false }
